@@ -131,25 +131,7 @@ def run(ctx):
         if "encoding" not in d:
             r.violate(f"{f.key}|TextEncoder::new", f"TextEncoder is created for `{d}`, expected the token's/document's encoding", f.loc())
 
-    # ------------------------------------------------------------------ R13.4
-    r = ctx.rule("R13.4", "document bytes are decoded strictly in the declared encoding: no BOM-sniffing decode entry point (Encoding::decode / new_decoder / *_with_bom_removal) is applied to a text node, name, value or comment", "E-MIR who-may-call", floor=3)
-    dec = []
-    for f in mir.fns:
-        if mir.is_test_fn(f):
-            continue
-        for bi, t in f.calls(r"Encoding::"):
-            ck = callee_key(t)
-            if BOM_SNIFFING.search(ck) or BOM_FREE.search(ck):
-                dec.append((f, bi, t, ck))
-    for f, bi, t, ck in dec:
-        key = f"{f.key}|{ck}"
-        r.inst(key, sample={"site": f.key, "call": ck})
-        if BOM_SNIFFING.search(ck):
-            r.violate(key, f"{f.key} decodes document bytes with {ck}, which sniffs a byte-order mark: a value/comment/text fragment starting with bytes EF BB BF, FF FE or FE FF is decoded as UTF-8/UTF-16 (or loses those bytes) instead of in the document encoding", f.loc())
-    if len(dec) < 3:
-        raise EngineError("R13.4: fewer than 3 decode entry points found")
-    # positive control
-    r.control(bool(BOM_SNIFFING.search("Encoding::decode")) and not BOM_SNIFFING.search("Encoding::decode_without_bom_handling"), "regex distinguishes sniffing from non-sniffing entry points")
+    rule_no_bom_sniffing(ctx, mir)
 
     # ------------------------------------------------------------------ R13.5
     r = ctx.rule("R13.5", "the streaming decoder is never bypassed while it holds part of a character (shared with C02 R02.6) and malformed input is replaced, not dropped: feed_text uses the replacing decode_to_str", "E-MIR", floor=2)
@@ -168,3 +150,26 @@ def run(ctx):
     return ("Type-level witnesses (compile_fail + compiling twin) that only ASCII-compatible encodings can be configured, who-may-call rules for the "
             "write-once shared encoding and for BOM-sniffing decode entry points, placement of the encoding switch relative to the meta token on the CFG, "
             "and routing of inserted &str bytes through the encoder.")
+
+
+def rule_no_bom_sniffing(ctx, mir, rid="R13.4"):
+    # ------------------------------------------------------------------ R13.4
+    r = ctx.rule(rid, "document bytes are decoded strictly in the declared encoding: no BOM-sniffing decode entry point (Encoding::decode / new_decoder / *_with_bom_removal) is applied to a text node, name, value or comment", "E-MIR who-may-call", floor=3)
+    dec = []
+    for f in mir.fns:
+        if mir.is_test_fn(f):
+            continue
+        for bi, t in f.calls(r"Encoding::"):
+            ck = callee_key(t)
+            if BOM_SNIFFING.search(ck) or BOM_FREE.search(ck):
+                dec.append((f, bi, t, ck))
+    for f, bi, t, ck in dec:
+        key = f"{f.key}|{ck}"
+        r.inst(key, sample={"site": f.key, "call": ck})
+        if BOM_SNIFFING.search(ck):
+            r.violate(key, f"{f.key} decodes document bytes with {ck}, which sniffs a byte-order mark: a value/comment/text fragment starting with bytes EF BB BF, FF FE or FE FF is decoded as UTF-8/UTF-16 (or loses those bytes) instead of in the document encoding", f.loc())
+    if len(dec) < 3:
+        raise EngineError(rid + ": fewer than 3 decode entry points found")
+    # positive control
+    r.control(bool(BOM_SNIFFING.search("Encoding::decode")) and not BOM_SNIFFING.search("Encoding::decode_without_bom_handling"), "regex distinguishes sniffing from non-sniffing entry points")
+
